@@ -9,11 +9,11 @@ MODEL_TICK_S = 1
 def model_check(chk, thorough):
     r = vlib.mc("ChunkStore", "MC_ChunkStore.cfg", workers=8, timeout=600)
     chk.add_model("ChunkStore design=>contract (persistent, crash/restart, 2 ids x 2 payloads, ttl 1..2, now<=3)", r,
-                  "invariants C01_ReadExact C01_NoEarlyLoss C04_FileImpliesLive C04_NoDeadFileAfterSweep C04_WipeBeforeUnlink")
+                  "invariants C01_ReadExact C01_NoEarlyLoss C04_FileImpliesLive C04_NoDeadFileAfterSweep C04_WipeBeforeUnlink; a put's write may fail part-way (WriteFail)")
     r2 = vlib.mc("ChunkStore", "MC_ChunkStore_mem.cfg", workers=8, timeout=600)
     chk.add_model("ChunkStore in-memory, 3 ids", r2)
     # the deviations this tree used to have must violate the contract in the model (else mis-modelled)
-    for cfg, inv in (("dev_noscrub", "C04_FileImpliesLive"), ("dev_eraseonlookup", "C04_FileImpliesLive"), ("dev_listraw", "C01_ReadExact"),
+    for cfg, inv in (("dev_noscrub", "C04_FileImpliesLive"), ("dev_eraseonlookup", "C04_FileImpliesLive"), ("dev_listraw", "C01_ReadExact"), ("dev_failedwrite", "C04_FileImpliesLive"), ("reach_failedwrite", "Reach_FailedWrite"),
                      ("reach_deadline", "Reach_ReadAtDeadline"), ("reach_midwipe", "Reach_CrashMidWipe"), ("reach_overwrite", "Reach_OverwriteShorter")):
         vlib.mc("ChunkStore", "MC_ChunkStore_%s.cfg" % cfg, expect_violation=inv, workers=4, timeout=300)
     return r
@@ -34,6 +34,9 @@ def hist_to_scripts(hists, persistent=1):
             if op == "put":
                 lastop = "put c=%d b=%d ttl=%d" % (a["c"], a["b"], a["ttl"] * MODEL_TICK_S)
                 lines.append(lastop)
+            elif op == "wfail":
+                # the write of the put in progress fails part-way: the driver injects ENOSPC into that put
+                lines[-1] = lastop = lines[-1] + " wfail=1"
             elif op == "get":
                 flip ^= 1
                 lines.append("%s c=%d" % ("get" if flip else "rec", a["c"]))
@@ -68,7 +71,7 @@ def random_behaviours(rng, n, persistent, nids=12, npay=8, maxlen=40):
             if x < 0.28:
                 ttl = rng.choice([-5, 0, 1, 1, 2, 3, 5, 10, 1000000])
                 c = rng.randrange(nids) if rng.random() < 0.8 else rng.randrange(3)
-                lines.append("put c=%d b=%d ttl=%d" % (c, rng.randrange(npay), ttl))
+                lines.append("put c=%d b=%d ttl=%d%s" % (c, rng.randrange(npay), ttl, " wfail=1" if persistent and rng.random() < 0.15 else ""))
                 dls.append(now + (ttl if ttl > 0 else deflt) * 1000)
             elif x < 0.50:
                 lines.append("%s c=%d" % (rng.choice(["get", "rec"]), rng.randrange(nids)))
@@ -132,7 +135,7 @@ def run(chk):
     run_and_validate(chk, normal, "tlc-state-cover")
     # transition cover: every action appended to a sample of state-cover paths
     ext = []
-    acts = ["put c=1 b=1 ttl=1", "put c=2 b=0 ttl=2", "get c=1", "rec c=2", "list", "sweep", "adv ms=1000", "restart"]
+    acts = ["put c=1 b=1 ttl=1", "put c=2 b=0 ttl=2", "put c=1 b=0 ttl=1 wfail=1", "get c=1", "rec c=2", "list", "sweep", "adv ms=1000", "restart"]
     for lines in rng.sample(normal, min(len(normal), 400 if not thorough else 4000)):
         for a in acts:
             ext.append(lines + [a, "list", "get c=1", "get c=2"])
@@ -144,4 +147,5 @@ def run(chk):
     run_and_validate(chk, random_behaviours(rng, n, 0), "random-memory")
     chk.assumptions += ["payload identity: the harness maps payload index k to a fixed byte string and classifies bytes read back by exact comparison",
                         "virtual clock by link-time interposition of steady_clock::now / system_clock::now",
+                        "a failing store is a short write followed by ENOSPC on the chunk file's descriptor (injected by the driver at the write of the file opened for writing)",
                         "filesystem calls observed by interposing open/fopen/write/writev/close/fclose/unlink/remove/rename in the driver"]
